@@ -500,4 +500,12 @@ document of a search, complex-search or export response gets `ID.String()` of it
 theorem c04_x_api_response_id_texts :
     SV.Extracted.C04.apiResponseIDTexts = ["makeProtoDocs: id.ID.String()", "Export: doc.ID.String()"] := by decide
 
+/-- whatever text `FromString` accepts (either digit case, any separator byte) names a 64-bit ID, and `String()` of that
+ID is a canonical text that parses to the same ID - so the proxy's re-encoding of a client's ID for the store
+(`makeFetchReq` after `FromString`) never changes which document is meant -/
+theorem c04_from_string_range_canonical (x : List Nat) (m r : Nat) (h : SV.IDStr.fromString x = some (m, r)) :
+    m < 18446744073709551616 ∧ r < 18446744073709551616 ∧
+      SV.IDStr.fromString (SV.IDStr.idString m r) = some (m, r) :=
+  ⟨(SV.IDStr.fromString_range x m r h).1, (SV.IDStr.fromString_range x m r h).2, SV.IDStr.fromString_canonical x m r h⟩
+
 end SV.Props.C04
